@@ -6,12 +6,26 @@ import core
 
 VERIF = os.path.dirname(os.path.dirname(os.path.abspath(__file__)))
 
-_PATHSEG = re.compile(r'\b(?:[A-Za-z_][A-Za-z0-9_]*::)+[A-Za-z_][A-Za-z0-9_]*')
+_PATHSEG = re.compile(r'(?P<pre>fn:|const:|closure:|coroutine:)?\b(?:[A-Za-z_][A-Za-z0-9_]*::)+[A-Za-z_][A-Za-z0-9_]*(?P<post>\(|::\{)?')
+
+
+def _short(m):
+    segs = m.group(0)
+    pre = m.group('pre') or ''
+    post = m.group('post') or ''
+    core_ = segs[len(pre):len(segs) - len(post)]
+    parts = core_.split('::')
+    if pre or post or len(parts) == 2:
+        keep = parts[-2:]
+    else:
+        keep = parts[-1:]
+    return pre + '::'.join(keep) + post
 
 
 def shorten(t):
-    """keep the last two segments of every path: hickory_proto::rr::SerialNumber::new -> SerialNumber::new"""
-    return _PATHSEG.sub(lambda m: '::'.join(m.group(0).split('::')[-2:]), t)
+    """function paths keep their last two segments (SerialNumber::new), type paths inside
+    `<X as Trait>` qualifiers and generic positions keep one (Iter, Iterator)"""
+    return _PATHSEG.sub(_short, t)
 
 
 class Site:
@@ -150,7 +164,7 @@ class Ctx:
             term = shorten(fn.term_call(t, 0))
             if arx and not arx.search(term):
                 continue
-            out.append(Site(fn, bi, None, 'call', term, label=label or shorten(names[-1])))
+            out.append(Site(fn, bi, None, 'call', term, label=label or shorten(names[-1] + '(')[:-1]))
         return self._number(out)
 
     def false_returns(self, fn, label='false'):
@@ -276,7 +290,7 @@ class Ctx:
         site. Accepted idioms: (A) a `for` loop whose only way back to the head crosses an elem_ok
         edge; (B) guard `!iter.any(closure)` where the closure returns false only under elem_ok;
         (C) guard `iter.all(closure)` where the closure returns true only under elem_ok."""
-        nxt = rf"^ok\(<.* as iter::Iterator>::next\((slice::iter\()?{coll_rx}\)?\)\)$"
+        nxt = rf"^ok\(<.* as Iterator>::next\((slice::iter\()?{coll_rx}\)?\)\)$"
         body = [s for bb in range(len(fn.blocks)) for s, ps in fn.edge_props(bb).items()
                 if any(re.search(nxt, shorten(p)) for p in ps)]
         for site in sites:
@@ -294,7 +308,7 @@ class Ctx:
                     ok, how = True, 'loop'
             if not ok:
                 for neg, meth in ((True, 'any'), (False, 'all')):
-                    pat = rf"^{'!' if neg else ''}<.* as iter::Iterator>::{meth}\((slice::iter\()?{coll_rx}\)?,closure:([^)]*)\)$"
+                    pat = rf"^{'!' if neg else ''}<.* as Iterator>::{meth}\((slice::iter\()?{coll_rx}\)?,closure:([^)]*)\)$"
                     # find the closure named on a guarding edge
                     for bb in range(len(fn.blocks)):
                         for s_, ps in fn.edge_props(bb).items():
